@@ -55,6 +55,15 @@ impl Formatter for EmptyLineRemover {
             return (byte_pos, byte_pos);
         }
 
+        // Only a line that the removal left empty gives up its line break.
+        let line_start = content[..byte_pos].rfind('\n').map_or(0, |pos| pos + 1);
+        if !content[line_start..byte_pos]
+            .bytes()
+            .all(|b| b == b' ' || b == b'\t')
+        {
+            return (byte_pos, byte_pos);
+        }
+
         let is_not_next_line_empty = find_next_line_break_pos(content, bytes, byte_pos, true)
             .and_then(|pos| find_next_line_break_pos(content, bytes, pos + 1, true))
             .is_none();
